@@ -3,7 +3,7 @@
 
    Reading guide.  [aos] is the list of attributed observations handed to Outcome: pairs (oracle id, observation),
    oracle ids distinct (libocr), each observation a well-formed Go map structure that passed
-   Plugin.ValidateObservation for its oracle ([validated sup dest aos], [sup o] = the chains oracle o may read,
+   Plugin.ValidateObservation (with the local home-chain view [fchain]) for its oracle ([validated sup dest fchain aos], [sup o] = the chains oracle o may read,
    [dest] = the destination chain).
    [supported_by f thr aos x] says: there is a duplicate-free list rs of at least thr oracles which is EXACTLY the
    set of oracles whose observation contains the item x among [f observation] (the items that observation files
@@ -13,7 +13,7 @@ Require Import Verif.Model.Base Verif.Model.Consensus Verif.Model.ExecMerge Veri
 
 (* A merged commit report of chain k was reported identically, under key k, by >= f_k+1 distinct oracles. *)
 Theorem C07_commit : forall sup dest fchain aos r k l x,
-  NoDup (map fst aos) -> validated sup dest aos ->
+  NoDup (map fst aos) -> validated sup dest fchain aos ->
   merge_commits fchain aos = Ok r -> In (k, l) r -> In x l ->
   exists f, In (k, f) fchain /\ supported_by (commits_at k) (f_plus_1 f) aos x /\
             (forall o ob, In (o, ob) aos -> NoDup (commits_at k ob)).
@@ -23,7 +23,7 @@ Print Assumptions C07_commit.
 (* A merged message of chain k was reported identically, under chain key k, by >= f_k+1 distinct oracles
    (holds after the repair of F13a: validateMessageKeys). *)
 Theorem C07_message : forall sup dest fchain aos r k l x,
-  NoDup (map fst aos) -> validated sup dest aos ->
+  NoDup (map fst aos) -> validated sup dest fchain aos ->
   merge_msgs fchain aos = Ok r -> In (k, l) r -> In x l ->
   exists f, In (k, f) fchain /\ supported_by (msgs_at k) (f_plus_1 f) aos x /\
             (forall o ob, In (o, ob) aos -> NoDup (msgs_at k ob)).
@@ -33,7 +33,7 @@ Print Assumptions C07_message.
 (* With the validation as it was before the repair one oracle reaches the threshold alone (F13a). *)
 Theorem C07_message_unfixed_refuted :
   exists sup dest fchain aos r k l x f,
-    NoDup (map fst aos) /\ validated_unfixed sup dest aos /\
+    NoDup (map fst aos) /\ validated_unfixed sup dest fchain aos /\
     merge_msgs fchain aos = Ok r /\ In (k, l) r /\ In x l /\ In (k, f) fchain /\
     (N.of_nat (length (supporters msg_eqb (msgs_at k) x aos)) < f_plus_1 f)%N.
 Proof. exact merge_msgs_unfixed_refuted. Qed.
@@ -50,8 +50,8 @@ Proof. exact merge_tokens_sound. Qed.
 Print Assumptions C07_token.
 
 (* A merged (source, sender, nonce) triple was reported by >= f_dest+1 distinct oracles. *)
-Theorem C07_nonce : forall sup dest fdest aos x,
-  NoDup (map fst aos) -> validated sup dest aos ->
+Theorem C07_nonce : forall sup dest fchain fdest aos x,
+  NoDup (map fst aos) -> validated sup dest fchain aos ->
   In x (merge_nonces fdest aos) ->
   supported_by nonce_triples (f_plus_1 fdest) aos x /\
   (forall o ob, In (o, ob) aos -> NoDup (nonce_triples ob)).
@@ -75,30 +75,29 @@ Proof. exact merge_costly_unfixed_refuted. Qed.
 Print Assumptions C07_costly_unfixed_refuted.
 
 (* ---- "items lacking support are ignored without blocking the others" ----
-   Full statement: for all validated aos, getConsensusObservation succeeds when |aos| >= F and every item with
-   f+1 distinct reporters is in the result, whatever else any observation contains.
-   Refuted by the current code (F13d, recorded: the package's own tests require the error): *)
-Theorem C07_non_blocking_refuted :
-  exists sup bigF dest fchain aos a,
-    NoDup (map fst (a :: aos)) /\ validated sup dest (a :: aos) /\
-    is_ok (get_consensus bigF dest fchain aos) = true /\
-    get_consensus bigF dest fchain (a :: aos) = Err.
-Proof. exact non_blocking_refuted. Qed.
-Print Assumptions C07_non_blocking_refuted.
-
-(* Strongest true restriction: when no observation uses a chain key that fChain lacks, the merge succeeds ... *)
-Theorem C07_non_blocking_except_known : forall bigF dest fchain aos,
-  any_unknown_key fchain aos = false -> (bigF <= Z.of_nat (length aos))%Z ->
+   After the repair of F13d (validateObservedChains) the full statement holds: for all validated aos,
+   getConsensusObservation succeeds when |aos| >= F ... *)
+Theorem C07_non_blocking : forall sup bigF dest fchain aos,
+  validated sup dest fchain aos -> (bigF <= Z.of_nat (length aos))%Z ->
   exists cs ms ts,
     merge_commits fchain aos = Ok cs /\ merge_msgs fchain aos = Ok ms /\ merge_tokens fchain aos = Ok ts /\
     get_consensus bigF dest fchain aos =
       Ok (mkMerged cs ms ts (merge_costly (f_dest dest fchain) aos) (merge_nonces (f_dest dest fchain) aos)).
-Proof. exact get_consensus_ok_except_known. Qed.
-Print Assumptions C07_non_blocking_except_known.
+Proof. exact get_consensus_ok. Qed.
+Print Assumptions C07_non_blocking.
+
+(* Before that repair one accepted observation with an unknown chain key made the merge fail for everybody: *)
+Theorem C07_non_blocking_unfixed_refuted :
+  exists sup bigF dest fchain aos a,
+    NoDup (map fst (a :: aos)) /\ validated_nochains sup dest (a :: aos) /\
+    is_ok (get_consensus bigF dest fchain aos) = true /\
+    get_consensus bigF dest fchain (a :: aos) = Err.
+Proof. exact non_blocking_unfixed_refuted. Qed.
+Print Assumptions C07_non_blocking_unfixed_refuted.
 
 (* ... and every item with enough distinct reporters is delivered, whatever the other observations hold. *)
 Theorem C07_commit_complete : forall sup dest fchain aos k f x rs,
-  NoDup (map fst aos) -> validated sup dest aos -> unknown_key fchain o_commits aos = false ->
+  NoDup (map fst aos) -> validated sup dest fchain aos ->
   In (k, f) fchain ->
   NoDup rs -> rs <> [] -> (forall o, In o rs -> exists ob, In (o, ob) aos /\ In x (commits_at k ob)) ->
   (f_plus_1 f <= N.of_nat (length rs))%N ->
@@ -107,7 +106,7 @@ Proof. exact merge_commits_complete. Qed.
 Print Assumptions C07_commit_complete.
 
 Theorem C07_message_complete : forall sup dest fchain aos k f x rs,
-  NoDup (map fst aos) -> validated sup dest aos -> unknown_key fchain o_msgs aos = false ->
+  NoDup (map fst aos) -> validated sup dest fchain aos ->
   In (k, f) fchain ->
   NoDup rs -> rs <> [] -> (forall o, In o rs -> exists ob, In (o, ob) aos /\ In x (msgs_at k ob)) ->
   (f_plus_1 f <= N.of_nat (length rs))%N ->
@@ -115,8 +114,8 @@ Theorem C07_message_complete : forall sup dest fchain aos k f x rs,
 Proof. exact merge_msgs_complete. Qed.
 Print Assumptions C07_message_complete.
 
-Theorem C07_nonce_complete : forall sup dest fdest aos x rs,
-  NoDup (map fst aos) -> validated sup dest aos ->
+Theorem C07_nonce_complete : forall sup dest fchain fdest aos x rs,
+  NoDup (map fst aos) -> validated sup dest fchain aos ->
   NoDup rs -> rs <> [] -> (forall o, In o rs -> exists ob, In (o, ob) aos /\ In x (nonce_triples ob)) ->
   (f_plus_1 fdest <= N.of_nat (length rs))%N ->
   In x (merge_nonces fdest aos).
